@@ -547,8 +547,12 @@ func checkMain(propID, build, verif, tier string, seed int64) int {
 	// violations: one replay file per distinct signature, verified in a fresh process first
 	exit := 0
 	seen := map[string]bool{}
-	_ = os.MkdirAll(filepath.Join(verif, "replays"), 0o755)
-	if stale, _ := filepath.Glob(filepath.Join(verif, "replays", propID+"-*.json")); len(stale) > 0 {
+	outDir := verif
+	if v := os.Getenv("CRSSIM_OUT"); v != "" {
+		outDir = v // runs against scratch copies keep their evidence and replay files out of /verif
+	}
+	_ = os.MkdirAll(filepath.Join(outDir, "replays"), 0o755)
+	if stale, _ := filepath.Glob(filepath.Join(outDir, "replays", propID+"-*.json")); len(stale) > 0 {
 		for _, f := range stale {
 			_ = os.Remove(f)
 		}
@@ -560,7 +564,7 @@ func checkMain(propID, build, verif, tier string, seed int64) int {
 		}
 		seen[sc.Violation.Sig] = true
 		name := fmt.Sprintf("%s-%d-w%d-%x.json", propID, seed, sc.Worker, hash64(sc.Violation.Sig)&0xffffff)
-		path := filepath.Join(verif, "replays", name)
+		path := filepath.Join(outDir, "replays", name)
 		data, _ := json.MarshalIndent(sc, "", " ")
 		if err := os.WriteFile(path, data, 0o644); err != nil {
 			fmt.Fprintln(os.Stderr, err)
@@ -579,7 +583,7 @@ func checkMain(propID, build, verif, tier string, seed int64) int {
 		exit = 1
 	}
 	wall := time.Since(start).Seconds()
-	writeEvidence(prop, verif, tier, seed, total, wall, nviol, workers)
+	writeEvidence(prop, outDir, tier, seed, total, wall, nviol, workers)
 	fmt.Printf("%s %s: %d scenarios, %d child processes, %d distinct non-trivial, %d known-finding hits, %d violations, %.1fs\n",
 		propID, tier, total.Scenarios, total.Steps, len(total.Distinct), sumInts(total.Known), nviol, wall)
 	return exit
